@@ -38,8 +38,20 @@ def universe():
     return U
 
 
-def _spec(vocab_idx, list_idx, scores=None):
-    return {"kind": "encode", "vocab": list(vocab_idx), "tags": list(list_idx), "scores": scores}
+def big_universe(n=700):
+    """A class list of hundreds of tags over a handful of terms; values repeat across terms (the same value under two
+    terms are two tags)."""
+    from soundevent import data
+
+    terms = [data.term_from_key(k) for k in ("species", "call_type", "other")] + [data.Term(name=f"big:{k}", label=f"Big{k}", definition="d") for k in range(3)]
+    return [data.Tag(term=terms[i % len(terms)], value=f"v{i // 2}") for i in range(n)]
+
+
+def _spec(vocab_idx, list_idx, scores=None, universe_kind=None):
+    s = {"kind": "encode", "vocab": list(vocab_idx), "tags": list(list_idx), "scores": scores}
+    if universe_kind:
+        s["universe"] = universe_kind
+    return s
 
 
 def judge_encoding(ctx, U, vocab_idx, list_idx, scores):
@@ -48,7 +60,7 @@ def judge_encoding(ctx, U, vocab_idx, list_idx, scores):
 
     vocab = [U[i] for i in vocab_idx]
     tags = [U[i] for i in list_idx]
-    spec = _spec(vocab_idx, list_idx, scores)
+    spec = _spec(vocab_idx, list_idx, scores, "big" if len(U) > 50 else None)
     try:
         enc = E.create_tag_encoder(vocab)
     except Exception as e:
@@ -485,6 +497,15 @@ def run(ctx):
         scores = [rng.choice([0.0, 1.0, rng.random()]) for _ in l]
         ctx.case(("encode_long", len(v)), _spec(v, l, scores))
         judge_encoding(ctx, U, v, l, scores)
+    # class lists of 16 / 17 / 255 / 256 / 257 / 600 tags (a regional species list), tag lists of hundreds
+    UB = big_universe()
+    for nv in (16, 17, 33, 255, 256, 257, 600):
+        for _ in range(ctx.scale(1, 4)):
+            v = rng.sample(range(len(UB)), nv)
+            l = [rng.choice(v) if rng.random() < 0.7 else rng.randrange(len(UB)) for _ in range(rng.choice([3, 40, 300]))]
+            scores = [rng.choice([0.0, 1.0, 0.5, 0.25]) for _ in l]
+            ctx.case(("encode_large", nv), _spec(v, l, scores, "big"))
+            judge_encoding(ctx, UB, v, l, scores)
     # a tag that EQUALS a vocabulary tag but was built differently must encode to its index
     from soundevent import data as _d
     from soundevent.evaluation import encoding as _E
@@ -523,7 +544,7 @@ def replay(ctx, w):
     if s["kind"] == "encoder_isolation":
         judge_encoder_isolation(ctx, s["seed"])
     elif s["kind"] == "encode":
-        judge_encoding(ctx, universe(), s["vocab"], s["tags"], s["scores"])
+        judge_encoding(ctx, big_universe() if s.get("universe") == "big" else universe(), s["vocab"], s["tags"], s["scores"])
     else:
         for i in range(50):
             for cls, how, a, b in hash_pairs(ctx, s.get("seed", i)):
